@@ -371,7 +371,13 @@ pub fn main(o: &Opts) -> i32 {
         progs.extend(extra_programs());
     }
     progs.push(Program::parse("C C M Kd R[Z M Kc T] R[Z A Kd]").unwrap());
-    rep.bounds = json!({"base_programs": progs.len(), "space": if o.tier == Tier::Quick { "every third program of P(1,1) + S(2) (+ bad-witness variants)" } else { "P(2,1) + S(5) + extras (+ bad-witness variants)" },
+    if o.tier == Tier::Quick {
+        // padded positions (gate counts that are not powers of two), in either phase and in both
+        for (k, n1, n2) in [(Kind::M, 3, 0), (Kind::AOdd, 5, 0), (Kind::M, 2, 1), (Kind::M, 0, 3), (Kind::M, 3, 0), (Kind::M, 0, 3), (Kind::M, 3, 0), (Kind::M, 2, 1), (Kind::M, 0, 3)] {
+            progs.push(size_program(k, n1, n2));
+        }
+    }
+    rep.bounds = json!({"base_programs": progs.len(), "space": if o.tier == Tier::Quick { "every third program of P(1,1) + S(2) + padded sizes 3, 5, 2+1, 0+3 (+ bad-witness variants)" } else { "P(2,1) + S(5) + extras (+ bad-witness variants)" },
         "depth1": "every element of the algebraic deviation alphabet keeping |L|=|R| (identity, negation, +B, +B_blinding, (+T8, T8), scalar 0/neg/+delta, round edits); same-type copies and swaps on the smallest bases",
         "depth2": "all unordered pairs of depth-1 deviations on the smallest bases",
         "challenge_weighted": "on the smallest honest bases: every ordered pair of scalar fields (t_x, t_x_blinding, e_blinding, a, b): first += 1, second += +-c^(+-1) for every challenge c the verifier derived for the unmodified proof (forks included)",
